@@ -101,7 +101,8 @@ class PEval:
             if op == '*':
                 t = A.strip(e.get('sub'), casts=True)
                 if t is not None and t.get('k') in ('MemberExpr', 'DeclRefExpr'):
-                    return env.get(('deref', t.get('n')), UNK)
+                    v = env.get(('deref', t.get('n')), UNK)
+                    return env.get(('elem', t.get('n'), 0), UNK) if v is UNK else v
                 return UNK
             if op in ('++', '--', '&'): return UNK
             v = self.ev(e.get('sub'), env, depth)
@@ -153,6 +154,9 @@ class PEval:
                 if base is not None and base.get('k') == 'DeclRefExpr' and idx is not UNK:
                     tab = self.static_tables.get(base.get('id'))
                     if tab is not None and 0 <= idx < len(tab): return tab[idx]
+                    # element of a buffer whose content the caller supplied (`p[0]` is `*p`)
+                    if ('elem', base.get('n'), idx) in env: return env[('elem', base.get('n'), idx)]
+                    if idx == 0 and ('deref', base.get('n')) in env: return env[('deref', base.get('n'))]
             return UNK
         if k in ('CallExpr', 'CXXMemberCallExpr', 'CXXOperatorCallExpr'):
             if A.callee_name(e) == '__builtin_expect':
